@@ -157,6 +157,19 @@ func setMapEntry(m reflect.Value, key, value interface{}) {
 // convertMapItem converts a decoded key or value to the key or element type of
 // the destination map (int32 -> int, *T -> T, generic map -> map[K]V, ...).
 func convertMapItem(typ reflect.Type, in interface{}) reflect.Value {
+	return convertMapItemSeen(typ, in, nil)
+}
+
+// a source map under conversion to a destination type
+type _mapConversion struct {
+	src uintptr
+	typ reflect.Type
+}
+
+// convertMapItemSeen remembers the maps under conversion: a generic map that
+// contains itself (a back-reference on the wire) converts to a map that
+// contains itself instead of recursing without end.
+func convertMapItemSeen(typ reflect.Type, in interface{}, seen map[_mapConversion]reflect.Value) reflect.Value {
 	raw := EnsureRawValue(in)
 	if !raw.IsValid() {
 		return reflect.Zero(typ)
@@ -165,9 +178,17 @@ func convertMapItem(typ reflect.Type, in interface{}) reflect.Value {
 		return raw
 	}
 	if typ.Kind() == reflect.Map && raw.Kind() == reflect.Map {
+		key := _mapConversion{raw.Pointer(), typ}
+		if mp, ok := seen[key]; ok {
+			return mp
+		}
+		if seen == nil {
+			seen = make(map[_mapConversion]reflect.Value)
+		}
 		mp := reflect.MakeMap(typ)
+		seen[key] = mp
 		for _, k := range raw.MapKeys() {
-			mp.SetMapIndex(convertMapItem(typ.Key(), k.Interface()), convertMapItem(typ.Elem(), raw.MapIndex(k).Interface()))
+			mp.SetMapIndex(convertMapItemSeen(typ.Key(), k.Interface(), seen), convertMapItemSeen(typ.Elem(), raw.MapIndex(k).Interface(), seen))
 		}
 		return mp
 	}
